@@ -411,6 +411,9 @@ func runBurst(c *fw.Ctx, idx int, r *fw.Rand) {
 	if err := os.MkdirAll(store, 0o755); err != nil {
 		panic(err)
 	}
+	// added after seeded change C10-13: every third store has a hostile-but-legal directory
+	// name / spelling (paths.go)
+	store, pathLabel, oddPath := pickStorePath(c, "burst", idx, 3, dir, store)
 	sc := storageCfg(store, cap, 0)
 	open := func() (storage.Store, error) { return sut.NewStore("file", sc, extension.NewHost()) }
 	st, err := open()
@@ -423,6 +426,10 @@ func runBurst(c *fw.Ctx, idx int, r *fw.Rand) {
 		backend, mode = "file-burst-restart", "restart"
 	}
 	desc := fmt.Sprintf("burst/%s/cap=%d/boxes=%d/biggest=%d", mode, cap, len(boxes), maxBig)
+	if oddPath {
+		backend += "-oddpath"
+		desc += fmt.Sprintf("/path(%s)=%q", pathLabel, store)
+	}
 	e := c07.NewExec("C10", backend, desc, st, cap, 0, boxes)
 	e.ContentEvery = 8
 	nonce := fmt.Sprintf("c10b-%d", idx)
@@ -536,6 +543,12 @@ func runBurst(c *fw.Ctx, idx int, r *fw.Rand) {
 	}
 	c07.Report(c, e, "burst/")
 	c.Count("burst/rounds_completed", int64(roundsDone))
+	if oddPath {
+		c.Count("burst/oddpath_rounds", int64(roundsDone))
+		if roundsDone > 0 {
+			c.NonTrivial(fmt.Sprintf("burst-oddpath|%s|%s", mode, pathLabel))
+		}
+	}
 	if roundsDone > 0 {
 		var wk []string
 		for k := range writeKinds {
